@@ -68,7 +68,7 @@ Fixpoint compile (e : expr) : code :=
       | _ => compile l ++ compile r ++ at_ here (binop_code op l r)
       end
   | EMatches _ re l r =>
-      match re with
+      match re_const re r with
       | Some p => compile l ++ at_ here [IMatchesConst p]
       | None => compile l ++ compile r ++ at_ here [IMatches]
       end
